@@ -30,6 +30,7 @@ import (
 	"runtime"
 	"sort"
 	"sync"
+	"sync/atomic"
 	"time"
 
 	"github.com/gordian-engine/gordian/gassert/gasserttest"
@@ -185,6 +186,8 @@ type e2Inst struct {
 	deaf            bool // does not read the round view channel any more
 	hc              chan<- struct{}
 	stopped         bool
+	panicked        atomic.Bool
+	errLogged       atomic.Bool
 }
 
 type e2Cfg struct {
@@ -197,6 +200,12 @@ type e2Cfg struct {
 	blockData   bool
 	catchup     bool
 	maxHeight   uint64
+
+	// planned: everything about a round (candidates, strategy script) is a pure function of
+	// (planSeed, height, round), so that an interrupted and an uninterrupted run are comparable (C10).
+	planned  bool
+	planSeed uint64
+	allCtl   bool // number the writes of all three stores (crash positions for each)
 }
 
 type e2World struct {
@@ -241,6 +250,8 @@ type e2World struct {
 	noHold    int  // >0 while a barrier runs: held strategy calls are released at once
 	fzHit     <-chan struct{}
 	frozen    bool
+	ctl       *e2WriteCtl
+	scriptFor func(rd *e2Round) *e2Script
 }
 
 func (w *e2World) count(name string) { w.counts[name]++ }
@@ -256,9 +267,12 @@ func newE2World(run *verifkit.Run, rng *rand.Rand, caseID string, cfg e2Cfg) *e2
 	w.vset = w.fx.ValSet()
 	w.gen = w.fx.DefaultGenesis()
 
-	w.aStore = &e2AStore{log: w.log, inner: tmmemstore.NewActionStore()}
-	w.fStore = &e2FStore{log: w.log, inner: tmmemstore.NewFinalizationStore()}
-	w.smStore = &e2SMStore{log: w.log, inner: tmmemstore.NewStateMachineStore()}
+	if cfg.allCtl {
+		w.ctl = &e2WriteCtl{}
+	}
+	w.aStore = &e2AStore{log: w.log, inner: tmmemstore.NewActionStore(), ctl: w.ctl}
+	w.fStore = &e2FStore{log: w.log, inner: tmmemstore.NewFinalizationStore(), ctl: w.ctl}
+	w.smStore = &e2SMStore{log: w.log, inner: tmmemstore.NewStateMachineStore(), ctl: w.ctl}
 	// The engine stores the genesis pseudo-finalization at initial height - 1 (tmengine.Engine.initChain).
 	gh, err := w.gen.Header(w.fx.HashScheme)
 	if err != nil {
@@ -305,9 +319,10 @@ func (w *e2World) startInstance() {
 		msg := fmt.Sprint(val)
 		key := verifkit.PanicKey(msg, string(stack))
 		w.log.add(e2Ev{K: e2kPanic, Sub: name, Note: key, Err: msg, Inst: in.n})
+		in.panicked.Store(true)
 		in.deadOnce.Do(func() { close(in.dead) })
 	})
-	log := slog.New(&e2LogHandler{w: w, inst: in.n})
+	log := slog.New(&e2LogHandler{w: w, inst: in.n, in: in})
 	wd, wctx := gwatchdog.NewNopWatchdog(ctx, log)
 	in.wd = wd
 	in.ctx = wctx
@@ -346,7 +361,15 @@ func (w *e2World) startInstance() {
 		select {
 		case <-kd:
 			if wctx.Err() == nil {
-				w.log.add(e2Ev{K: e2kExit, Inst: in.n})
+				// kernelDone is closed before verifhook.Catch reports a panic. Give the report a
+				// moment to arrive unless the machine logged an error (then it returned on its own).
+				// This only decides how the death is labelled in the trace.
+				for k := 0; k < 250 && !in.panicked.Load() && !in.errLogged.Load(); k++ {
+					time.Sleep(time.Millisecond)
+				}
+				if !in.panicked.Load() {
+					w.log.add(e2Ev{K: e2kExit, Inst: in.n})
+				}
 			}
 		case <-wctx.Done():
 			// cancelled by the harness (stopInstance) or by the machine's own watchdog.Terminate
@@ -362,6 +385,7 @@ func (w *e2World) startInstance() {
 type e2LogHandler struct {
 	w    *e2World
 	inst int
+	in   *e2Inst
 }
 
 func (h *e2LogHandler) Enabled(_ context.Context, l slog.Level) bool { return l >= slog.LevelWarn }
@@ -377,6 +401,9 @@ func (h *e2LogHandler) Handle(_ context.Context, rec slog.Record) error {
 		msg = msg[:300]
 	}
 	h.w.log.add(e2Ev{K: "log", Inst: h.inst, Note: msg})
+	if rec.Level >= slog.LevelError && h.in != nil {
+		h.in.errLogged.Store(true)
+	}
 	return nil
 }
 func (h *e2LogHandler) WithAttrs([]slog.Attr) slog.Handler { return h }
@@ -758,7 +785,7 @@ func (w *e2World) prevHashApp(h uint64) (prevHash []byte, prevApp []byte, proof 
 		idx := make([]int, 0, w.cfg.nVals)
 		for i := w.cfg.nVals - 1; i >= 0; i-- {
 			idx = append(idx, i)
-			if w.isQuorum(w.pow(idx)) && w.rng.IntN(2) == 0 {
+			if w.isQuorum(w.pow(idx)) && (w.cfg.planned || w.rng.IntN(2) == 0) {
 				break
 			}
 		}
@@ -822,16 +849,22 @@ func (w *e2World) roundX(h uint64, r uint32, keep bool) *e2Round {
 		return rd
 	}
 	rd := &e2Round{h: h, r: r, prevotes: map[int]string{}, precommits: map[int]string{}}
+	if w.cfg.planned {
+		// everything drawn below is a function of (planSeed, h, r) only
+		save := w.rng
+		w.rng = e2pcg(w.cfg.planSeed, h<<32|uint64(r))
+		defer func() { w.rng = save }()
+	}
 	n := 1 + w.rng.IntN(3)
 	for i := 0; i < n; i++ {
 		proposer := 0
 		if w.cfg.nVals > 1 {
 			proposer = 1 + w.rng.IntN(w.cfg.nVals-1)
 		}
-		acceptable := w.rng.IntN(12) != 0
+		acceptable := w.rng.IntN(12) != 0 || w.cfg.planned
 		rd.cands = append(rd.cands, w.newBlock(h, r, proposer, fmt.Sprintf("data_%d_%d_%d", h, r, i), acceptable))
 	}
-	if old, ok := w.quorumB[h]; ok && w.rng.IntN(2) == 0 {
+	if old, ok := w.quorumB[h]; ok && !w.cfg.planned && w.rng.IntN(2) == 0 {
 		// a block of an earlier round of this height may be proposed again
 		for _, ord := range w.rounds {
 			if ord.h != h {
@@ -858,7 +891,7 @@ func (w *e2World) roundX(h uint64, r uint32, keep bool) *e2Round {
 		rd.intent = "soup"
 	}
 	rd.fav = w.rng.IntN(len(rd.cands))
-	rd.showOwn = w.rng.IntN(5) != 0
+	rd.showOwn = w.rng.IntN(5) != 0 && !w.cfg.planned
 	if keep {
 		w.rounds[k] = rd
 	}
@@ -990,8 +1023,13 @@ func (w *e2World) onEntrance(re tmeil.StateMachineRoundEntrance) {
 	if wasReplay {
 		in.probePending = true
 	}
-	w.seedRound(rd)
-	sc := w.drawScript(rd)
+	var sc *e2Script
+	if w.scriptFor != nil {
+		sc = w.scriptFor(rd)
+	} else {
+		w.seedRound(rd)
+		sc = w.drawScript(rd)
+	}
 	w.strat.setCurrent(sc)
 	vrv, ov := w.buildVRV(rd, "entrance")
 	if f := w.factsOf(ov.Prevotes, ov.Precommits); f.pcBlockQuorum {
@@ -1795,8 +1833,10 @@ func (w *e2World) restart() bool {
 		q.done = true
 	}
 	// after a restart the mirror answers with or without the node's own earlier actions in the view
-	for _, k := range w.sortedRounds() {
-		w.rounds[k].showOwn = w.rng.IntN(2) == 0
+	if !w.cfg.planned {
+		for _, k := range w.sortedRounds() {
+			w.rounds[k].showOwn = w.rng.IntN(2) == 0
+		}
 	}
 	w.count("restart")
 	w.startInstance()
